@@ -1,5 +1,6 @@
 import Rfsm.Audit
 import Rfsm.Proofs.SessLemmas
+import Rfsm.Proofs.OptimalLemmas
 /-!
 # C02 — Each microstep takes exactly the W3C optimal transition set, deterministically
 
@@ -167,17 +168,83 @@ theorem C02_deterministic (env : Env σ) (d : Doc) (c : Option Str) (hp : Bool) 
   rw [h]
 #assert_axioms C02_deterministic
 
-/-- What is proved of `C02_full`: clauses (1')–(2) of `OptimalSet` — every selected transition is a
-    candidate of an active atomic state, chosen as the first candidate whose guard holds, and the
-    set is conflict free — plus the two pre-emption rules as statements about each filter step.
-    **Missing** for `C02_full`: (1) as stated needs the link "member of the result ⇒ it was the
-    `find?` result of *its* atomic state" through the accumulator of `selectLoop`, and (3) the
-    completeness direction (a first-enabled transition that is absent from the result conflicts
-    with a member) — an invariant of the fold over `rcStep` that is not proved yet. -/
-theorem C02_partial (env : Env σ) (d : Doc) (ev : Option Str) (s : Sess σ) :
-    (∀ t ∈ (select env d ev s).2, ∃ a ∈ atomicStates d s.cfg, t ∈ candidates d ev a) ∧
-    ConflictFree d s.hv s.cfg (select env d ev s).2 :=
-  ⟨C02_selected env d ev s, C02_conflict_free env d ev s⟩
+/-- with pure guards the enabled list (what selection collects before conflict removal) consists
+    exactly of the first-enabled candidates of the active atomic states, without duplicates -/
+theorem C02_enabled_exact (env : Env σ) (hp : GuardsPure env) (d : Doc) (ev : Option Str) (s : Sess σ) :
+    (enabledList env d ev s).Nodup ∧
+    ∀ t, t ∈ enabledList env d ev s ↔
+      ∃ a ∈ atomicStates d s.cfg, (candidates d ev a).find? (guardHolds env d s.dm s.cfg) = some t := by
+  unfold enabledList
+  rw [selectLoop_pure env hp d ev]
+  refine ⟨pickFold_nodup env d ev s.dm s.cfg _ [] List.nodup_nil, fun t => ?_⟩
+  rw [mem_pickFold]
+  simp
+#assert_axioms C02_enabled_exact
+
+/-- clause (1) of `OptimalSet`: every member of the selected set is, for some active atomic state,
+    THE first candidate of that state's chain whose guard holds -/
+theorem C02_members_first_enabled (env : Env σ) (hp : GuardsPure env) (d : Doc) (ev : Option Str)
+    (s : Sess σ) :
+    ∀ t ∈ (select env d ev s).2, ∃ a ∈ atomicStates d s.cfg,
+      (candidates d ev a).find? (guardHolds env d s.dm s.cfg) = some t := by
+  intro t ht
+  rw [select_eq_removeConflicting] at ht
+  exact ((C02_enabled_exact env hp d ev s).2 t).1 (removeConflicting_subset d s.hv s.cfg _ t ht)
+#assert_axioms C02_members_first_enabled
+
+/-- towards clause (3) of `OptimalSet`: a first-enabled transition of an active atomic state is
+    absent from the selected set only if it conflicts with a DIFFERENT first-enabled transition (of
+    some active atomic state).  Clause (3) itself demands that this other transition is a member of
+    the result; see `C02_partial`. -/
+theorem C02_absent_only_by_conflict (env : Env σ) (hp : GuardsPure env) (d : Doc) (ev : Option Str)
+    (s : Sess σ) (a : Nat) (ha : a ∈ atomicStates d s.cfg) (t : Nat)
+    (ht : (candidates d ev a).find? (guardHolds env d s.dm s.cfg) = some t) :
+    t ∈ (select env d ev s).2 ∨
+    ∃ a' ∈ atomicStates d s.cfg, ∃ t', (candidates d ev a').find? (guardHolds env d s.dm s.cfg) = some t' ∧
+      t' ≠ t ∧ conflict d s.hv s.cfg t t' = true := by
+  obtain ⟨hnd, hmem⟩ := C02_enabled_exact env hp d ev s
+  rw [select_eq_removeConflicting]
+  rcases removeConflicting_absent d s.hv s.cfg _ hnd t ((hmem t).2 ⟨a, ha, ht⟩) with h | ⟨t', ht', hne, hc⟩
+  · exact Or.inl h
+  · obtain ⟨a', ha', hf⟩ := (hmem t').1 ht'
+    exact Or.inr ⟨a', ha', t', hf, hne, hc⟩
+#assert_axioms C02_absent_only_by_conflict
+
+/-- a transition whose exit set is disjoint from that of every other enabled transition is always
+    taken (corollary: in a configuration without conflicts the selected set IS the enabled set) -/
+theorem C02_unconflicted_taken (env : Env σ) (hp : GuardsPure env) (d : Doc) (ev : Option Str)
+    (s : Sess σ) (t : Nat) (ht : t ∈ enabledList env d ev s)
+    (hfree : ∀ t' ∈ enabledList env d ev s, t' ≠ t → conflict d s.hv s.cfg t t' = false) :
+    t ∈ (select env d ev s).2 := by
+  obtain ⟨hnd, _⟩ := C02_enabled_exact env hp d ev s
+  rw [select_eq_removeConflicting]
+  rcases removeConflicting_absent d s.hv s.cfg _ hnd t ht with h | ⟨t', ht', hne, hc⟩
+  · exact h
+  · rw [hfree t' ht' hne] at hc; cases hc
+#assert_axioms C02_unconflicted_taken
+
+/-- What is proved of `C02_full` (for pure guards, every document table, session, event, data
+    model): clauses (1) and (2) of `OptimalSet` in full — every selected transition is THE first
+    candidate whose guard holds of some active atomic state, and the set is duplicate and conflict
+    free — and of clause (3) the weaker form `C02_absent_only_by_conflict`: a first-enabled transition
+    that is absent conflicts with a different first-enabled transition.
+    **Missing** for `C02_full`: clause (3) demands that this other transition is itself a *member* of
+    the result.  `conflict` is not transitive, so the fold over `rcStep` alone does not give that: a
+    transition pre-empted by `t'` stays dropped when `t'` is later removed by a third one.  On state
+    *trees* this cannot happen (the atomic states between two descendants of a state in document
+    order are descendants of it too), which needs the pre-order lemmas about `docId` that
+    `conformantB` does not provide yet; `C02_full` quantifies over all tables, for which it is not
+    expected to hold. -/
+theorem C02_partial (env : Env σ) (hp : GuardsPure env) (d : Doc) (ev : Option Str) (s : Sess σ) :
+    (∀ t ∈ (select env d ev s).2, ∃ a ∈ atomicStates d s.cfg,
+        (candidates d ev a).find? (guardHolds env d s.dm s.cfg) = some t) ∧
+    ConflictFree d s.hv s.cfg (select env d ev s).2 ∧
+    (∀ a ∈ atomicStates d s.cfg, ∀ t, (candidates d ev a).find? (guardHolds env d s.dm s.cfg) = some t →
+        t ∈ (select env d ev s).2 ∨
+        ∃ a' ∈ atomicStates d s.cfg, ∃ t', (candidates d ev a').find? (guardHolds env d s.dm s.cfg) = some t' ∧
+          t' ≠ t ∧ conflict d s.hv s.cfg t t' = true) :=
+  ⟨C02_members_first_enabled env hp d ev s, C02_conflict_free env d ev s,
+   fun a ha t ht => C02_absent_only_by_conflict env hp d ev s a ha t ht⟩
 #assert_axioms C02_partial
 
 /-! ### Non-vacuity: a concrete parallel document where two regions select conflicting transitions -/
@@ -205,5 +272,18 @@ example : conflict exDoc [] [1, 2, 3, 4, 5, 6] 10 11 = true := by decide
 -- the earlier atomic state's transition pre-empts the later one
 example : removeConflicting exDoc [] [1, 2, 3, 4, 5, 6] [10, 11] = [10] := by decide
 example : sortByDesc (docIdOf exDoc) (computeExitSet exDoc [] [1, 2, 3, 4, 5, 6] [10]) = [6, 5, 4, 3, 2] := by decide
+
+/-- a data model without data: every guard holds, nothing has effects (pure guards) -/
+def trivEnv : Env Unit :=
+  { cond := fun dm _ _ => ({ dm := dm }, some true), exec := fun dm _ _ => { dm := dm },
+    setEvent := fun dm _ => dm, initData := fun dm _ _ => { dm := dm },
+    doneData := fun dm _ _ => ({ dm := dm }, []), invoke := fun dm _ _ _ => { dm := dm } }
+
+example : GuardsPure trivEnv := fun _ _ _ => rfl
+-- the hypotheses of C02_enabled_exact / C02_absent_only_by_conflict on a concrete session: both
+-- regions enable a transition, the later one is absent and conflicts with the earlier, different one
+example : enabledList trivEnv exDoc (some [101]) { cfg := [1, 2, 3, 4, 5, 6], dm := () } = [10, 11] := by decide
+example : (select trivEnv exDoc (some [101]) { cfg := [1, 2, 3, 4, 5, 6], dm := () }).2 = [10] := by decide
+example : (candidates exDoc (some [101]) 6).find? (guardHolds trivEnv exDoc () [1, 2, 3, 4, 5, 6]) = some 11 := by decide
 
 end Rfsm.Interp
